@@ -272,3 +272,33 @@ prop('C08',
      level_note='Order preservation on (-1,1) is assembled from: order inside every binade (solver), the comparison at every binade junction (concrete), and the tiny range mapping to the zero code (solver); the gluing by transitivity is the only pen-and-paper step. NaN inputs are excluded by the property.',
      technique='SSA-to-SMT symbolic execution of the real code: IEEE floating point bit-blasted for single-sample facts, exact linear-integer encoding (concrete exponent, symbolic significand) for relational and accuracy facts; z3; native replay',
      outside=['NaN inputs (unspecified by the property)'])
+
+I2F = [('SignedAsFloat', 'Signed', INTS_S), ('UnsignedAsFloat', 'Unsigned', INTS_U)]
+I2F_Q = {'Signed': [('int8', 'float32'), ('int16', 'float64'), ('int32', 'float64'), ('int64', 'float64')],
+         'Unsigned': [('uint8', 'float64'), ('uint16', 'float32'), ('uint32', 'float64'), ('uint64', 'float32')]}
+RT_ALL = {'Signed': [(a, 'float64') for a in ('int8', 'int16', 'int32')] + [(a, 'float32') for a in ('int8', 'int16')],
+          'Unsigned': [(a, 'float64') for a in ('uint8', 'uint16', 'uint32')] + [(a, 'float32') for a in ('uint8', 'uint16')]}
+RT_Q = {'Signed': [('int8', 'float64'), ('int16', 'float64'), ('int16', 'float32')], 'Unsigned': [('uint8', 'float64'), ('uint16', 'float64'), ('uint8', 'float32')]}
+
+prop('C09', opts={'mode': 'value'},
+     harnesses=[{'name': 'C09_' + fn, 'types': {'quick': I2F_Q[fam], 'thorough': [(a, b) for a in ints for b in FLOATS]}, 'covers': ['class']} for fn, fam, ints in I2F] +
+     [{'name': 'C09_Levels_' + fn, 'types': {'quick': I2F_Q[fam], 'thorough': [(a, b) for a in ints for b in FLOATS]}, 'covers': ['levels']} for fn, fam, ints in I2F] +
+     [{'name': 'C09_RT_' + fam, 'types': {'quick': RT_Q[fam], 'thorough': RT_ALL[fam]}} for fn, fam, ints in I2F],
+     bounds={'quick': 'every source sample (case split over sign x bit length, value symbolic; exact integer encoding of int->float conversion, subtraction and division by the constant full scale with IEEE rounding): range, order inside the class, accuracy |result - amplitude/full scale| <= 2^-(depth-1) + 2^(2-p), strict order for depth <= 32 through float64; reference levels and class junctions concretely; round trips through the matching float->fixed conversion for 8/16-bit sources (float64: exact, float32: within one step); 8 of 22 instantiations',
+             'thorough': 'all 22 instantiations; round trips for 8/16/32-bit sources through float64 and 8/16-bit through float32'},
+     level_note='Order preservation / injectivity over the whole source range is assembled from the per-class solver results and the concrete comparison at each class junction (transitivity is the pen-and-paper step). The float-rounding allowance of the accuracy clause is fixed at 4 ulp of 1.0 (2^(2-p)).',
+     technique='SSA-to-SMT symbolic execution of the real code with an exact linear-integer encoding of the IEEE operations (concrete exponent, symbolic significand); z3; native replay',
+     outside=['round trips for 64-bit sources and for 32-bit sources through float32 (not promised by the property)'])
+
+RATES = [8000, 11025, 16000, 22050, 32000, 44100, 48000, 88200, 96000, 176400, 192000, 352800, 384000,
+         2822400, 5644800, 1, 7, 60, 1000, 1000000, 44100.5, 0.5, 999983, 48000.25]
+RATES_Q = [0, 5, 6, 14, 16, 19, 20]
+prop('C17', opts={'mode': 'value'},
+     harnesses=[{'name': h, 'types': [()], 'params': {'quick': {'Rates': len(RATES)}, 'thorough': {'Rates': len(RATES)}},
+                 'splits': {'quick': [{'rate': i} for i in RATES_Q], 'thorough': [{'rate': i} for i in range(len(RATES))]},
+                 'covers': [c]} for h, c in (('C17_Duration', 'class'), ('C17_Events', 'class'), ('C17_Junctions', 'junctions'))],
+     bounds={'quick': 'rates %s Hz (concrete configurations); every event count 0..rate*86400 and every duration 0..24 h (case split over bit length, value symbolic; exact integer encoding of the IEEE multiplication and of math.Round): accuracy, order inside each class, Events(Duration(n)) == n for rates <= 1 MHz; bit-length junctions concretely' % [RATES[i] for i in RATES_Q],
+             'thorough': 'all %d configured rates: %s' % (len(RATES), RATES)},
+     level_note='The rate is concrete on every path: a symbolic rate makes 1e9/f*n a product of two symbolic doubles, which neither the integer encoding (non-linear) nor bit-blasted floating point (time-out) decides; rates outside the list are outside the claim. The float-rounding allowance is 2^-51 relative (two roundings).',
+     technique='SSA-to-SMT symbolic execution of the real code with an exact linear-integer encoding of the IEEE operations; z3; native replay',
+     outside=['rates not in the configured list (a symbolic rate is out of reach)', 'spans beyond 24 h'])
